@@ -12,7 +12,7 @@ use linfa_linear::verif_hooks_c12 as gh;
 use linfa_linear::{Link, TweedieRegressor};
 use linfa_logistic::verif_hooks_c12 as lh;
 use linfa_logistic::{LogisticRegression, MultiLogisticRegression};
-use ndarray::{s, Array1, Array2, ArrayView2, ShapeBuilder};
+use ndarray::{s, Array1, Array2, ArrayView1, ArrayView2, ShapeBuilder};
 
 #[path = "c12_ext.rs"]
 mod ext;
@@ -72,6 +72,39 @@ impl Lay {
             _ => self.base.slice(s![..;-1, ..]),
         }
     }
+}
+/// targets in one of three memory layouts; `view()` always shows the same logical vector.
+/// 0: owned contiguous, 1: every second element of a longer array (stride 2; the elements in between are `filler`, a value
+/// that changes the outcome if raw memory is read instead of the view), 2: stored in reverse (stride -1)
+pub struct TLay<C> {
+    base: Array1<C>,
+    tlay: usize,
+}
+impl<C: Clone> TLay<C> {
+    pub fn new(y: &[C], filler: C, tlay: usize) -> TLay<C> {
+        let n = y.len();
+        let base = match tlay {
+            1 => Array1::from_shape_fn(2 * n, |i| if i % 2 == 0 { y[i / 2].clone() } else { filler.clone() }),
+            2 => Array1::from_shape_fn(n, |i| y[n - 1 - i].clone()),
+            _ => Array1::from(y.to_vec()),
+        };
+        TLay { base, tlay }
+    }
+    pub fn view(&self) -> ArrayView1<'_, C> {
+        match self.tlay {
+            1 => self.base.slice(s![..;2]),
+            2 => self.base.slice(s![..;-1]),
+            _ => self.base.view(),
+        }
+    }
+}
+/// runs `f` (a real fit whose result is needed to BUILD the next request line) only if the next case is selected
+/// (`--only`), under `catch_unwind`; `None` = not selected, panicked or no result
+pub fn pre<R>(em: &Em, f: impl FnOnce() -> Option<R>) -> Option<R> {
+    if !em.only.map_or(true, |o| o == em.idx) {
+        return None;
+    }
+    std::panic::catch_unwind(std::panic::AssertUnwindSafe(f)).ok().flatten()
 }
 fn norm2(v: &[f64]) -> f64 {
     v.iter().map(|x| x * x).sum::<f64>().sqrt()
@@ -631,8 +664,17 @@ fn probe_rows(x: &M) -> M {
 
 /// the real binary `fit` for one label type `C`, on records given as a view (any layout)
 #[allow(clippy::type_complexity)]
-fn fit2_any<C: Ord + Clone + Default>(params: &LogisticRegression<f64>, x: ArrayView2<f64>, y: Vec<C>, thr: Option<f64>, probe: &Array2<f64>, owned: bool) -> Result<(Vec<f64>, f64, C, C, Vec<f64>, Vec<C>), String> {
-    let m = if owned { params.fit(&Dataset::new(x.to_owned(), Array1::from(y))) } else { params.fit(&DatasetBase::new(x, Array1::from(y))) }.map_err(|e| err_line(&e))?;
+fn fit2_any<C: Ord + Clone + Default>(params: &LogisticRegression<f64>, x: ArrayView2<f64>, y: Vec<C>, filler: C, tlay: usize, thr: Option<f64>, probe: &Array2<f64>, owned: bool) -> Result<(Vec<f64>, f64, C, C, Vec<f64>, Vec<C>), String> {
+    let tl = TLay::new(&y, filler, tlay);
+    // records owned / view x targets owned / contiguous view / strided view / reversed view
+    let m = if owned && tlay == 0 {
+        params.fit(&Dataset::new(x.to_owned(), Array1::from(y)))
+    } else if owned {
+        params.fit(&DatasetBase::new(x.to_owned(), tl.view()))
+    } else {
+        params.fit(&DatasetBase::new(x, tl.view()))
+    }
+    .map_err(|e| err_line(&e))?;
     let m = match thr {
         Some(t) => m.set_threshold(t),
         None => m,
@@ -650,6 +692,8 @@ pub struct Fit2Case {
     pub init: Option<Vec<f64>>,
     pub thr: Option<f64>,
     pub lay: usize,
+    /// memory layout of the targets (see `TLay`)
+    pub tlay: usize,
     /// `None` = the default budget of the crate (100)
     pub max_iter: Option<u64>,
     pub class: String,
@@ -667,19 +711,22 @@ fn op_fit2(em: &mut Em, rng: &mut Rng, i: usize) {
     let init: Option<Vec<f64>> = if (i / 3) % 3 == 2 { Some((0..nf + icpt as usize).map(|_| (rng.unit() - 0.5) / scale).collect()) } else { None };
     let thr = if rng.coin() { Some(*rng.pick(&[0.0, 0.25, 0.5, 0.75, 1.0])) } else { None };
     let lay = rng.below(5);
+    let tlay = rng.below(3);
     let class = format!("fit2:alpha={},icpt={},scale={}", if alpha == 0.0 { "0" } else { "pos" }, icpt as u8, scale);
-    run_fit2(em, Fit2Case { x, y, alpha, icpt, ty, tol, init, thr, lay, max_iter: Some(10_000), class });
+    run_fit2(em, Fit2Case { x, y, alpha, icpt, ty, tol, init, thr, lay, tlay, max_iter: Some(10_000), class });
 }
 
 pub fn run_fit2(em: &mut Em, c: Fit2Case) {
-    let Fit2Case { x, y, alpha, icpt, ty, tol, init, thr, lay, max_iter, class } = c;
+    let Fit2Case { x, y, alpha, icpt, ty, tol, init, thr, lay, tlay, max_iter, class } = c;
     let nf = x[0].len();
     let xprobe = probe_rows(&x);
+    let (x0, y0, init0, class0) = (x.clone(), y.clone(), init.clone(), class.clone());
+    em.count(&format!("fit2:tlay={}", tlay));
     em.count(&format!("fit2:ty={}", ty));
     em.count(&format!("fit2:ty={},init={}", ty, init.is_some() as u8));
     em.count(&format!("fit2:lay={}", lay));
     em.count(&class);
-    let op = format!("#fit2 ty={} alpha={} icpt={} tol={} init={} thr={} lay={} maxit={} x={} y={}", ty, alpha, icpt as u8, tol, init.as_ref().map_or("none".to_string(), |i| hx(i)), thr.map_or("default".to_string(), |t| t.to_string()), lay, max_iter.map_or("default".to_string(), |t| t.to_string()), hx2(&x), list(y.iter(), |c| c.to_string()));
+    let op = format!("#fit2 ty={} alpha={} icpt={} tol={} init={} thr={} lay={} tlay={} maxit={} x={} y={}", ty, alpha, icpt as u8, tol, init.as_ref().map_or("none".to_string(), |i| hx(i)), thr.map_or("default".to_string(), |t| t.to_string()), lay, tlay, max_iter.map_or("default".to_string(), |t| t.to_string()), hx2(&x), list(y.iter(), |c| c.to_string()));
     trace(&op);
     let mut fitted = false;
     let fitted_ref = &mut fitted;
@@ -697,12 +744,12 @@ pub fn run_fit2(em: &mut Em, c: Fit2Case) {
         let owned = lay == 4;
         // fit with the label type of the case; results are mapped back to class indices
         let res: Result<(Vec<f64>, f64, usize, usize, Vec<f64>, Vec<usize>), String> = match ty {
-            0 => fit2_any(&params, xl.view(), y.clone(), thr, &probe, owned),
+            0 => fit2_any(&params, xl.view(), y.clone(), 7usize, tlay, thr, &probe, owned),
             1 => {
                 let back = |s: &String| LABEL_NAMES.iter().position(|n| n == s).unwrap();
-                fit2_any(&params, xl.view(), y.iter().map(|c| LABEL_NAMES[*c].to_string()).collect::<Vec<String>>(), thr, &probe, owned).map(|(w, b, p, n, pe, ce)| (w, b, back(&p), back(&n), pe, ce.iter().map(back).collect()))
+                fit2_any(&params, xl.view(), y.iter().map(|c| LABEL_NAMES[*c].to_string()).collect::<Vec<String>>(), "filler".to_string(), tlay, thr, &probe, owned).map(|(w, b, p, n, pe, ce)| (w, b, back(&p), back(&n), pe, ce.iter().map(back).collect()))
             }
-            _ => fit2_any(&params, xl.view(), y.iter().map(|c| *c == 1).collect::<Vec<bool>>(), thr, &probe, owned).map(|(w, b, p, n, pe, ce)| (w, b, p as usize, n as usize, pe, ce.iter().map(|b| *b as usize).collect())),
+            _ => fit2_any(&params, xl.view(), y.iter().map(|c| *c == 1).collect::<Vec<bool>>(), y[0] != 1, tlay, thr, &probe, owned).map(|(w, b, p, n, pe, ce)| (w, b, p as usize, n as usize, pe, ce.iter().map(|b| *b as usize).collect())),
         };
         let (w, b, pos, neg, p_ext, c_ext) = match res {
             Ok(r) => r,
@@ -738,6 +785,52 @@ pub fn run_fit2(em: &mut Em, c: Fit2Case) {
     if fitted {
         em.count("fit2:fitted");
         em.count(&format!("fit2:fitted:ty={}", ty));
+        em.count(&format!("fit2:fitted:tlay={}", tlay));
+    }
+    // The CODE's gradient — and through the correspondence op `grad` the MODEL's `logisticGrad`, the function the
+    // theorems `logistic_grad_is_derivative` / `logistic_partials_le_of_grad_norm_le` are about — AT the point a real fit
+    // returns (same configuration, usize labels, owned arrays).
+    let (x, y, init, class) = (x0, y0, init0, class0);
+    let point = pre(em, || {
+        let mut params = LogisticRegression::default().alpha(alpha).with_intercept(icpt).gradient_tolerance(tol);
+        if let Some(mi) = max_iter {
+            params = params.max_iterations(mi);
+        }
+        if let Some(i) = &init {
+            params = params.initial_params(Array1::from(i.clone()));
+        }
+        let m = params.fit(&Dataset::new(arr2(&x, nf), Array1::from(y.clone()))).ok()?;
+        let mut w = m.params().to_vec();
+        if icpt {
+            w.push(m.intercept());
+        }
+        Some((w, m.labels().pos.class))
+    });
+    match point {
+        None => em.case("#fit2_point_skipped".to_string(), |ctx| {
+            ctx.mark_trivial();
+            "skipped".into()
+        }),
+        Some((w, pos)) => {
+            let t: Vec<f64> = y.iter().map(|c| if *c == pos { 1.0 } else { -1.0 }).collect();
+            em.count("fit2:code_gradient_at_fitted_point");
+            let op = format!("grad nf={} x={} y={} alpha={} w={}", nf, hx2(&x), hx(&t), hex64(alpha), hx(&w));
+            em.case_valid(op, &class.clone(), move |ctx| {
+                let xl = Lay::new(&x, nf, lay % 4);
+                let g = lh::logistic_grad_hook_g(&xl.view(), &Array1::from(t.clone()), alpha, &Array1::from(w.clone())).to_vec();
+                let (ww, b) = if icpt { (&w[..nf], w[nf]) } else { (&w[..], 0.0) };
+                let (mut want, gb) = doc_grad2(&x, &t, alpha, ww, b);
+                if icpt {
+                    want.push(gb);
+                }
+                // rounding of the two evaluation orders: a few ulps of the sum of the absolute terms
+                let mag: f64 = 1.0 + x.iter().flatten().map(|v| v.abs()).sum::<f64>() + alpha * ww.iter().map(|v| v.abs()).sum::<f64>();
+                ctx.require(g.len() == want.len() && g.iter().zip(&want).all(|(a, b)| (a - b).abs() <= 1e-12 * mag), "grad_is_derivative_of_documented_objective", &format!("{}:fitted_point", class), || format!("at the fitted point: logistic_grad = {:?}, textbook gradient = {:?}", g, want));
+                let floor = stagnation_floor(&x, icpt, alpha, 0.25, doc_loss2(&x, &t, alpha, ww, b));
+                ctx.require(norm2(&g) <= tol * 1.0001 + floor, "stationary", &format!("{}:code_gradient", class), || format!("|logistic_grad at the returned parameters| = {:e} > gradient_tolerance {:e} (+ solver noise floor {:e})", norm2(&g), tol, floor));
+                format!("ok {}", tfs(&g))
+            });
+        }
     }
 }
 
@@ -765,28 +858,43 @@ fn op_fitm(em: &mut Em, rng: &mut Rng, i: usize) {
     } else {
         None
     };
-    let lay = rng.below(5);
+    let lay = rng.below(5) + 5 * rng.below(3);
     let class = format!("fitm:alpha={},icpt={},scale={}", if alpha == 0.0 { "0" } else { "pos" }, icpt as u8, scale);
     run_fitm(em, class, x, y, k, alpha, icpt, ty, tol, init, lay, Some(10_000));
 }
 
 #[allow(clippy::type_complexity)]
-fn fitm_any<C: Ord + Clone + Default>(params: &MultiLogisticRegression<f64>, x: ArrayView2<f64>, y: Vec<C>, probe: &Array2<f64>, owned: bool) -> Result<(M, Vec<f64>, Vec<C>, M, Vec<C>), String> {
-    let m = if owned { params.fit(&Dataset::new(x.to_owned(), Array1::from(y))) } else { params.fit(&DatasetBase::new(x, Array1::from(y))) }.map_err(|e| err_line(&e))?;
+fn fitm_any<C: Ord + Clone + Default>(params: &MultiLogisticRegression<f64>, x: ArrayView2<f64>, y: Vec<C>, filler: C, tlay: usize, probe: &Array2<f64>, owned: bool) -> Result<(M, Vec<f64>, Vec<C>, M, Vec<C>), String> {
+    let tl = TLay::new(&y, filler, tlay);
+    let m = if owned && tlay == 0 {
+        params.fit(&Dataset::new(x.to_owned(), Array1::from(y)))
+    } else if owned {
+        params.fit(&DatasetBase::new(x.to_owned(), tl.view()))
+    } else {
+        params.fit(&DatasetBase::new(x, tl.view()))
+    }
+    .map_err(|e| err_line(&e))?;
     Ok((to_m(m.params()), m.intercept().to_vec(), m.classes().to_vec(), to_m(&m.predict_probabilities(probe)), m.predict(probe).to_vec()))
 }
 
 #[allow(clippy::too_many_arguments)]
 pub fn run_fitm(em: &mut Em, class: String, x: M, y: Vec<usize>, k: usize, alpha: f64, icpt: bool, ty: usize, tol: f64, init: Option<M>, lay: usize, max_iter: Option<u64>) {
+    // `lay` = record layout (lay % 5: four views + owned) + 5 * target layout (see `TLay`)
+    let (lay, tlay) = (lay % 5, lay / 5);
     let nf = x[0].len();
     let xprobe = probe_rows(&x);
+    let (x0, y0, init0, class0) = (x.clone(), y.clone(), init.clone(), class.clone());
+    let unscaled = class.ends_with("scale=10") || class.ends_with("scale=100");
+    em.count(&format!("fitm:tlay={}", tlay));
     em.count(&format!("fitm:k={}", k));
     em.count(&format!("fitm:ty={},init={}", ty, init.is_some() as u8));
     em.count(&class);
-    let op = format!("#fitm ty={} k={} alpha={} icpt={} tol={} init={} lay={} maxit={} x={} y={}", ty, k, alpha, icpt as u8, tol, init.as_ref().map_or("none".to_string(), |i| hx2(i)), lay, max_iter.map_or("default".to_string(), |t| t.to_string()), hx2(&x), list(y.iter(), |c| c.to_string()));
+    let op = format!("#fitm ty={} k={} alpha={} icpt={} tol={} init={} lay={} tlay={} maxit={} x={} y={}", ty, k, alpha, icpt as u8, tol, init.as_ref().map_or("none".to_string(), |i| hx2(i)), lay, tlay, max_iter.map_or("default".to_string(), |t| t.to_string()), hx2(&x), list(y.iter(), |c| c.to_string()));
     trace(&op);
     let mut fitted = false;
     let fitted_ref = &mut fitted;
+    let mut stationary = false;
+    let stationary_ref = &mut stationary;
     em.case_valid(op, &class.clone(), move |ctx| {
         let xl = Lay::new(&x, nf, lay % 4);
         let owned = lay == 4;
@@ -803,10 +911,10 @@ pub fn run_fitm(em: &mut Em, class: String, x: M, y: Vec<usize>, k: usize, alpha
         sorted.sort();
         let rank: Vec<usize> = (0..k).map(|c| if ty == 1 { sorted.iter().position(|s| *s == LABEL_NAMES[c]).unwrap() } else { c }).collect();
         let res: Result<(M, Vec<f64>, Vec<usize>, M, Vec<usize>), String> = if ty == 0 {
-            fitm_any(&params, xl.view(), y.clone(), &probe, owned)
+            fitm_any(&params, xl.view(), y.clone(), 7usize, tlay, &probe, owned)
         } else {
             let rk = |s: &String| sorted.iter().position(|n| n == s).unwrap();
-            fitm_any(&params, xl.view(), y.iter().map(|c| LABEL_NAMES[*c].to_string()).collect::<Vec<String>>(), &probe, owned).map(|(w, b, cl, pe, ce)| (w, b, cl.iter().map(rk).collect(), pe, ce.iter().map(rk).collect()))
+            fitm_any(&params, xl.view(), y.iter().map(|c| LABEL_NAMES[*c].to_string()).collect::<Vec<String>>(), "filler".to_string(), tlay, &probe, owned).map(|(w, b, cl, pe, ce)| (w, b, cl.iter().map(rk).collect(), pe, ce.iter().map(rk).collect()))
         };
         let (w, b, classes, p_ext, c_ext) = match res {
             Ok(r) => r,
@@ -828,7 +936,11 @@ pub fn run_fitm(em: &mut Em, class: String, x: M, y: Vec<usize>, k: usize, alpha
         }
         let gn = norm2(&g);
         let floor = stagnation_floor(&x, icpt, alpha, 0.5, doc_loss_m(&x, &cls, alpha, &w, &b));
-        ctx.require(gn <= tol * 1.0001 + floor, "stationary", &class, || format!("|gradient of the documented objective| = {:e} > gradient_tolerance {:e} (+ solver noise floor {:e})", gn, tol, floor));
+        *stationary_ref = gn <= tol * 1.0001 + floor;
+        // a gradient that is not even below 1 (hundreds of tolerances) is a different failure than the known weakness on
+        // un-normalised features (line search gives up near the optimum): its class is not matched by the open finding
+        let sclass = if gn > 1.0 { format!("{}:gross", class) } else { class.clone() };
+        ctx.require(gn <= tol * 1.0001 + floor, "stationary", &sclass, || format!("|gradient of the documented objective| = {:e} > gradient_tolerance {:e} (+ solver noise floor {:e})", gn, tol, floor));
         ctx.require(p_ext.len() == xprobe.len() && c_ext.len() == xprobe.len(), "shape", &class, || format!("{} probability rows for {} probe rows", p_ext.len(), xprobe.len()));
         for ((row, c), xr) in p_ext.iter().zip(&c_ext).zip(&xprobe) {
             let h: Vec<f64> = (0..k).map(|c| xr.iter().enumerate().map(|(j, a)| a * w[j][c]).sum::<f64>() + b[c]).collect();
@@ -842,6 +954,61 @@ pub fn run_fitm(em: &mut Em, class: String, x: M, y: Vec<usize>, k: usize, alpha
     if fitted {
         em.count("fitm:fitted");
         em.count(&format!("fitm:fitted:ty={}", ty));
+        em.count(&format!("fitm:fitted:tlay={}", tlay));
+    }
+    if unscaled {
+        // complement of what the two open findings mask (floors on these keys bound the masked share from above)
+        em.count("fitm:unscaled");
+        if fitted {
+            em.count("fitm:unscaled:fitted");
+        }
+        if fitted && stationary {
+            em.count("fitm:unscaled:fitted_and_stationary");
+        }
+    }
+    // the CODE's gradient and (op `mgrad`) the MODEL's `multiLogisticGrad` AT the point a real fit returns
+    let (x, y, init, class) = (x0, y0, init0, class0);
+    let point = pre(em, || {
+        let mut params = MultiLogisticRegression::default().alpha(alpha).with_intercept(icpt).gradient_tolerance(tol);
+        if let Some(mi) = max_iter {
+            params = params.max_iterations(mi);
+        }
+        if let Some(i) = &init {
+            params = params.initial_params(arr2(i, k));
+        }
+        let m = params.fit(&Dataset::new(arr2(&x, nf), Array1::from(y.clone()))).ok()?;
+        if m.classes().to_vec() != (0..k).collect::<Vec<usize>>() {
+            return None;
+        }
+        let mut w = to_m(m.params());
+        if icpt {
+            w.push(m.intercept().to_vec());
+        }
+        Some(w)
+    });
+    match point {
+        None => em.case("#fitm_point_skipped".to_string(), |ctx| {
+            ctx.mark_trivial();
+            "skipped".into()
+        }),
+        Some(w) => {
+            let yoh: M = y.iter().map(|c| (0..k).map(|j| if j == *c { 1.0 } else { 0.0 }).collect()).collect();
+            em.count("fitm:code_gradient_at_fitted_point");
+            let op = format!("mgrad nf={} k={} x={} y={} alpha={} w={}", nf, k, hx2(&x), hx2(&yoh), hex64(alpha), hx2(&w));
+            em.case_valid(op, &class.clone(), move |ctx| {
+                let xl = Lay::new(&x, nf, lay % 4);
+                let g = to_m(&lh::multi_logistic_grad_hook_g(&xl.view(), &arr2(&yoh, k), alpha, &arr2(&w, k)));
+                let b = if icpt { w[nf].clone() } else { vec![0.0; k] };
+                let (mut want, gb) = doc_grad_m(&x, &y, alpha, &w[..nf].to_vec(), &b);
+                if icpt {
+                    want.push(gb);
+                }
+                let mag: f64 = 1.0 + x.iter().flatten().map(|v| v.abs()).sum::<f64>() + alpha * w[..nf].iter().flatten().map(|v| v.abs()).sum::<f64>();
+                let ok = g.len() == want.len() && g.iter().zip(&want).all(|(r, s)| r.len() == s.len() && r.iter().zip(s).all(|(a, b)| (a - b).abs() <= 1e-11 * mag));
+                ctx.require(ok, "grad_is_derivative_of_documented_objective", &format!("{}:fitted_point", class), || format!("at the fitted point: multi_logistic_grad = {:?}, textbook gradient = {:?}", g, want));
+                format!("ok {}", tfs2(&g))
+            });
+        }
     }
 }
 
@@ -1002,10 +1169,16 @@ fn op_gcost_ggrad(em: &mut Em, rng: &mut Rng, lattice: bool) {
     for _ in 0..nf {
         p.push(if lattice { lat(rng, 1) / 8.0 } else { (rng.unit() - 0.5) * 0.2 });
     }
-    if !icpt && l == 0 && power > 0.0 {
-        // identity link without intercept: keep the mean positive through the first coefficient
-        return;
-    }
+    let (x, p) = if !icpt && l == 0 && power > 0.0 {
+        // identity link without intercept (the arm whose real `fit` never returns: open finding): the hooks are still
+        // observable at parameters with positive means — features shifted to [0.5, 4.5], coefficients in [1/2, 3/2]
+        em.count("glm:identity_link_no_intercept_power_ge_1");
+        let x: M = x.iter().map(|r| r.iter().map(|v| v + 2.5).collect()).collect();
+        let p: Vec<f64> = p.iter().map(|v| if lattice { 1.0 + v * 4.0 } else { 1.0 + v }).collect();
+        (x, p)
+    } else {
+        (x, p)
+    };
     em.count(&format!("glm:power={},link={}", power_name(power), l));
     let args = format!("l={} power={} alpha={} icpt={} nf={} x={} y={} p={}", l, hex64(power), hex64(alpha), icpt as u8, nf, hx2(&x), hx(&y), hx(&p));
     {
@@ -1129,6 +1302,7 @@ pub struct GlmCase {
     pub alpha: f64,
     pub tol: f64,
     pub bad: bool,
+    /// record layout (lay % 5: four views + owned) + 5 * target layout (see `TLay`; filler NaN)
     pub lay: usize,
     /// `None` = the default budget of the crate (100)
     pub max_iter: Option<usize>,
@@ -1154,28 +1328,41 @@ fn op_glmfit(em: &mut Em, rng: &mut Rng, i: usize) {
             *v -= 3.0;
         }
     }
+    // targets ON the boundary of the support (y = 0 is a valid Poisson / compound Poisson-Gamma target): every 3rd such fit
+    if (1.0..2.0).contains(&power) && (i / 6) % 3 == 1 {
+        for v in y.iter_mut() {
+            if rng.chance(1, 4) {
+                *v = 0.0;
+            }
+        }
+        y[0] = 0.0;
+    }
     // a share of out-of-support targets: must be rejected with an error
     let bad = power > 0.0 && rng.chance(1, 8);
     if bad {
         let i = rng.below(n);
         y[i] = if power >= 2.0 && rng.coin() { 0.0 } else { -0.5 };
     }
-    let lay = rng.below(5);
+    let lay = rng.below(5) + 5 * rng.below(3);
     run_glmfit(em, GlmCase { power, l, auto_link, icpt, alpha, tol, bad, lay, max_iter: Some(10_000), x, y });
 }
 
 pub fn run_glmfit(em: &mut Em, c: GlmCase) {
     let GlmCase { power, l, auto_link, icpt, alpha, tol, bad, lay, max_iter, x, y } = c;
+    let (lay, tlay) = (lay % 5, lay / 5);
     let nf = x[0].len();
     let class = format!("glmfit:power={},link={},icpt={}", power_name(power), l, icpt as u8);
+    let (x0, y0) = (x.clone(), y.clone());
+    let has_zero = !bad && y.iter().any(|v| *v == 0.0);
     em.count(&class);
+    em.count(&format!("glmfit:tlay={}", tlay));
     if bad {
         em.count("glmfit:target_out_of_support");
     }
     if auto_link {
         em.count("glmfit:default_link");
     }
-    let op = format!("#glmfit power={} l={} auto={} icpt={} alpha={} tol={} bad={} lay={} maxit={} x={} y={}", power, l, auto_link as u8, icpt as u8, alpha, tol, bad as u8, lay, max_iter.map_or("default".to_string(), |t| t.to_string()), hx2(&x), hx(&y));
+    let op = format!("#glmfit power={} l={} auto={} icpt={} alpha={} tol={} bad={} lay={} tlay={} maxit={} x={} y={}", power, l, auto_link as u8, icpt as u8, alpha, tol, bad as u8, lay, tlay, max_iter.map_or("default".to_string(), |t| t.to_string()), hx2(&x), hx(&y));
     let class_v = class.clone();
     trace(&op);
     // every fit that is expected to succeed runs under the watchdog: with the identity link and power >= 1 the mean can
@@ -1190,6 +1377,11 @@ pub fn run_glmfit(em: &mut Em, c: GlmCase) {
             None => {
                 // keeps the case index aligned with the watchdog children, which never skip
                 em.case(format!("#glmfit_skipped {}", &op[8..]), |ctx| {
+                    ctx.mark_trivial();
+                    "skipped".into()
+                });
+                // (and the follow-up case of a fit: gradient at the fitted point)
+                em.case("#glmfit_point_skipped".to_string(), |ctx| {
                     ctx.mark_trivial();
                     "skipped".into()
                 });
@@ -1225,7 +1417,14 @@ pub fn run_glmfit(em: &mut Em, c: GlmCase) {
         if let Some(mi) = max_iter {
             params = params.max_iter(mi);
         }
-        let res = if lay == 4 { params.fit(&Dataset::new(arr2(&x, nf), Array1::from(y.clone()))) } else { params.fit(&DatasetBase::new(xl.view(), Array1::from(y.clone()))) };
+        let tl = TLay::new(&y, f64::NAN, tlay);
+        let res = if lay == 4 && tlay == 0 {
+            params.fit(&Dataset::new(arr2(&x, nf), Array1::from(y.clone())))
+        } else if lay == 4 {
+            params.fit(&DatasetBase::new(arr2(&x, nf), tl.view()))
+        } else {
+            params.fit(&DatasetBase::new(xl.view(), tl.view()))
+        };
         if bad {
             // the statement asks for "an error"; which variant is not part of it
             ctx.require(res.is_err(), "rejects_out_of_support_targets", &format!("glmfit:power={}", power_name(power)), || format!("fit on targets {:?} returned {:?}", y, res.as_ref().map(|m| m.coef.to_vec())));
@@ -1233,7 +1432,11 @@ pub fn run_glmfit(em: &mut Em, c: GlmCase) {
         }
         match res {
             Err(e) => {
-                ctx.fail("fit_succeeds", &class, format!("fit returned {}", err_line(&e)));
+                // the error kind is part of the class: only "the line search met a NaN / Inf cost" with the identity link and
+                // power >= 1 (the mean left the domain of the deviance: the error-returning face of open finding 6) is listed
+                let msg = err_line(&e);
+                let kind = if msg.contains("NaN or Inf") { "linesearch_nan_or_inf" } else { err_kind(&msg) };
+                ctx.fail("fit_succeeds", &format!("{}:err={}", class, kind), format!("fit returned {}", msg));
                 "err".into()
             }
             Ok(m) => {
@@ -1277,14 +1480,73 @@ pub fn run_glmfit(em: &mut Em, c: GlmCase) {
     } else {
         em.case_valid(op, &class_v, body)
     }
+    if bad {
+        return;
+    }
     if fitted {
         em.count("glmfit:fitted");
+        em.count(&format!("glmfit:fitted:tlay={}", tlay));
+        if has_zero {
+            em.count("glmfit:fitted:targets_with_zero");
+        }
         em.count(&format!("glmfit:fitted:power={},link={}", power_name(power), l));
         if auto_link {
             em.count("glmfit:fitted:default_link");
         }
         if l == 0 && power > 0.0 {
             em.count("glmfit:fitted:identity_link_power_ge_1");
+        }
+    }
+    // the CODE's gradient and (op `ggrad`) the MODEL's `Glm.gradient` AT the point a real fit returns.  Not for the arms
+    // whose fit may never return (identity link, power >= 1): the re-fit runs in-process.
+    let (x, y) = (x0, y0);
+    let risky = l == 0 && power > 0.0;
+    let point = if hangs || risky {
+        None
+    } else {
+        pre(em, || {
+            let mut params = TweedieRegressor::params().power(power).alpha(alpha).fit_intercept(icpt).tol(tol);
+            if !auto_link {
+                params = params.link(link_of(l));
+            }
+            if let Some(mi) = max_iter {
+                params = params.max_iter(mi);
+            }
+            let m = params.fit(&Dataset::new(arr2(&x, nf), Array1::from(y.clone()))).ok()?;
+            let mut p = vec![];
+            if icpt {
+                p.push(m.intercept);
+            }
+            p.extend(m.coef.iter());
+            if p.iter().all(|v| v.is_finite()) { Some(p) } else { None }
+        })
+    };
+    match point {
+        None => em.case("#glmfit_point_skipped".to_string(), |ctx| {
+            ctx.mark_trivial();
+            "skipped".into()
+        }),
+        Some(p) => {
+            em.count("glmfit:code_gradient_at_fitted_point");
+            let op = format!("ggrad l={} power={} alpha={} icpt={} nf={} x={} y={} p={}", l, hex64(power), hex64(alpha), icpt as u8, nf, hx2(&x), hx(&y), hx(&p));
+            em.case_valid(op, &class_v.clone(), move |ctx| {
+                let g = gh::tweedie_gradient_hook(&arr2(&x, nf), &Array1::from(y.clone()), icpt, link_of(l), power, alpha, &Array1::from(p.clone())).unwrap().to_vec();
+                let off = icpt as usize;
+                let (gw, gb) = doc_glm_grad(power, link_of(l), alpha, &x, &y, &p[off..], if icpt { p[0] } else { 0.0 });
+                let mut want = vec![];
+                if icpt {
+                    want.push(gb);
+                }
+                want.extend(gw);
+                // |terms| of the sums: |d unit deviance / d mu| * |h'| * |x|
+                let mag: f64 = 1.0 + want.iter().map(|v| v.abs()).sum::<f64>() + x.iter().zip(&y).map(|(r, yi)| {
+                    let eta: f64 = r.iter().zip(&p[off..]).map(|(a, c)| a * c).sum::<f64>() + if icpt { p[0] } else { 0.0 };
+                    let mu = doc_link_inv(link_of(l), eta);
+                    ((yi - mu) / mu.powf(power) * doc_link_inv_der(link_of(l), eta)).abs() * (1.0 + r.iter().map(|v| v.abs()).sum::<f64>())
+                }).sum::<f64>();
+                ctx.require(g.len() == want.len() && g.iter().zip(&want).all(|(a, b)| (a - b).abs() <= 1e-11 * mag), "grad_is_derivative_of_documented_objective", &format!("{}:fitted_point", class_v), || format!("at the fitted point: TweedieProblem::gradient = {:?}, textbook gradient = {:?}", g, want));
+                format!("ok {}", tfs(&g))
+            });
         }
     }
 }
@@ -1376,8 +1638,8 @@ pub fn run(em: &mut Em, rng: &mut Rng) {
         }
         // log_sum_exp with the max of the whole matrix: rows far below it underflow, the gradient is wrong
         let x: M = [-117.2, -131.9, 151.0, -74.3, 87.9, -149.4, -58.0].iter().map(|v| vec![*v]).collect();
-        run_fitm(em, "fitm:alpha=pos,icpt=1,scale=100".to_string(), x.clone(), vec![1, 2, 3, 0, 0, 4, 0], 5, 0.1, true, 0, 1e-4, None, 4, Some(10_000));
-        run_fitm(em, "fitm:alpha=pos,icpt=1,scale=100".to_string(), x, vec![1, 2, 3, 0, 0, 4, 0], 5, 0.1, true, 1, 1e-4, Some(vec![vec![0.001, -0.002, 0.0, 0.003, -0.001], vec![0.0; 5]]), 4, Some(10_000));
+        run_fitm(em, "fitm:witness_of_repaired_log_sum_exp".to_string(), x.clone(), vec![1, 2, 3, 0, 0, 4, 0], 5, 0.1, true, 0, 1e-4, None, 4, Some(10_000));
+        run_fitm(em, "fitm:witness_of_repaired_log_sum_exp".to_string(), x, vec![1, 2, 3, 0, 0, 4, 0], 5, 0.1, true, 1, 1e-4, Some(vec![vec![0.001, -0.002, 0.0, 0.003, -0.001], vec![0.0; 5]]), 4, Some(10_000));
     }
     for i in 0..72 * f {
         op_fit2(em, rng, i);
